@@ -504,7 +504,8 @@ def c18_g(ctx):
              enclosing_loop(n) is None and
              cfg.exists_path(ctx.node(rv, n), cfg.by_stmt[id(rows)])]
     obj = [n for n in inits if match(ex.raw(n.value), pattern('np.empty(_b, dtype=object)'))
-           is not None and bname and ex.raw(n.value.args[0]) == ('name', bname)]
+           is not None and bname and ex.raw(n.value.args[0]) in (
+               ('name', bname), ('tuple', (('name', bname),)))]
     lst = [n for n in inits if ex.raw(n.value) == ('list', ())]
     ok = len(obj) == 1 and len(lst) == 1 and len(inits) == 2 and \
         _has_guard(ctx, rv, obj[0], DT, True) and _has_guard(ctx, rv, lst[0], DT, False) and \
